@@ -26,10 +26,20 @@ ASSUMPTIONS = [
 SHARDS = {"quick": 4, "thorough": 16}
 
 
-def row_value(spec):
+def row_value(spec, made=None):
+    """made: list of (object, cells) created earlier in this history; {"ref": k} re-uses the k-th of them (the very same
+    Python object), because callers do keep block rows around and assign them again"""
+    if "ref" in spec and made:
+        return made[spec["ref"] % len(made)]
+    if "ref" in spec:
+        spec = {"str": ""}
     if "str" in spec:
-        return spec["str"], cells_of_str(spec["str"])
-    return build(spec["desc"], "chunks"), cells_of_desc(spec["desc"])
+        out = (spec["str"], cells_of_str(spec["str"]))
+    else:
+        out = (build(spec["desc"], "chunks"), cells_of_desc(spec["desc"]))
+    if made is not None:
+        made.append(out)
+    return out
 
 
 def observe(a):
@@ -91,6 +101,7 @@ def run_case(case):
         return res
 
     nsteps = 0
+    made = []
     for step, op in enumerate(case.get("ops", [])):
         nsteps += 1
         kind = op["op"]
@@ -103,7 +114,9 @@ def run_case(case):
             if "block_str" in op:
                 block, block_cells = op["block_str"], [cells_of_str(ch) for ch in op["block_str"]]
             else:
-                vals = [row_value(s) for s in op["block"]]
+                vals = [row_value(s, made) for s in op["block"]]
+                if any("ref" in s for s in op["block"]):
+                    res.label("block_row_object_reused")
                 block_cells = [c for _, c in vals]
                 if op.get("as") == "fsarray":
                     bw = max([len(c) for c in block_cells], default=0)
@@ -258,7 +271,10 @@ FMT = st.sampled_from([{}, {}, {"fg": 31}, {"bg": 44}, {"bold": True, "fg": 32}]
 
 @st.composite
 def rowspec(draw, length):
-    text = draw(st.text(alphabet="abcxyz .", min_size=length, max_size=length))
+    if draw(st.integers(0, 6)) == 0:
+        return {"ref": draw(st.integers(0, 30))}
+    # one character per cell - also for double-width / combining / tab characters (cells are characters, not columns)
+    text = draw(st.text(alphabet="abcxyz ." + ("Ｅ́\t" if draw(st.integers(0, 4)) == 0 else ""), min_size=length, max_size=length))
     if draw(st.booleans()):
         return {"str": text}
     # split into 1-3 runs
@@ -272,7 +288,7 @@ def rowspec(draw, length):
 
 @st.composite
 def history(draw):
-    w = draw(st.integers(0, 7))
+    w = draw(st.one_of(st.integers(0, 7), st.integers(0, 7), st.sampled_from([12, 30])))
     if draw(st.integers(0, 3)) == 0:
         n = draw(st.integers(0, 4))
         strings = [draw(rowspec(draw(st.integers(0, 7)))) for _ in range(n)]
